@@ -42,6 +42,15 @@ def gen_case(rng, i, tier):
             e = G.L(h[0], [a if not G.isvar(a) else rng.choice(p["consts"]) for a in h[1]])
             if not any(x[0][:2] == e[:2] for x in p["evidence"]):
                 p["evidence"].append([e, rng.random() < 0.6])
+    if i % 3 == 1:
+        # alias atoms (h :- x. / h :- \\+x. as the only clause) carrying evidence and queries: propagated evidence travels through shared nodes
+        p = G.add_aliases(rng, p)
+        al = [c[2] for c in p["clauses"] if c[0] == "rule" and c[2][0].startswith("al")]
+        if al and not any(e[0][0].startswith("al") for e in p["evidence"]):
+            p["evidence"].append([rng.choice(al), rng.random() < 0.5])
+        for a in al:
+            if a not in p["queries"] and rng.random() < 0.7:
+                p["queries"].append(a)
     k = 8 if tier != "thorough" else 24
     vecs = []
     for j in range(k):
